@@ -521,7 +521,7 @@ def judge(line, impl_out, check_image=True):
     if impl_out in ("PANIC", "ABORT", "TIMEOUT", "MISSING-OUTPUT"):
         return "implementation %s" % impl_out
     exp = expected(line)
-    steps = impl_out.split(" ; ")
+    steps = impl_out.split(" ; ") if impl_out != "" else []
     if len(steps) != len(exp):
         return "step count differs (%d vs %d)" % (len(steps), len(exp))
     for i, (got, want) in enumerate(zip(steps, exp)):
